@@ -133,7 +133,7 @@ class CovMonitor(taps.Monitor):
             gcorr = got / unit
             # trace preserved (the correlation matrix has trace n)
             ctx.close(float(np.trace(gcorr)), float(n), 'smooth:trace-not-preserved', what, rtol=1e-11)
-            ctx.close(gcorr, exp_corr, 'smooth:differs-from-spectral-definition', what, rtol=0, atol=1e-9 * max(1.0, 1.0 / max(lam_min, 1e-3)))
+            ctx.close(gcorr, exp_corr, 'smooth:differs-from-spectral-definition', what, rtol=0, atol=1e-11 * max(1.0, 1.0 / max(lam_min, 1e-3)))
             ctx.close(gcorr, gcorr.T, 'smooth:asymmetric', what, rtol=0, atol=1e-12)
             if lam_min > 0:
                 # every eigenvalue is at least lam_min / mean > 0 (the estimate itself need not be PSD for replica subsets)
@@ -145,7 +145,7 @@ class CovMonitor(taps.Monitor):
         ctx.ev()
         ctx.count('judged:covariance:differs-from-reference:' + ('corr' if correlation is True else 'cov'))
         dev = np.abs(got - exp) / unit
-        tol = 1e-10 if correlation is True else 1e-9
+        tol = 1e-12            # sums and products only: a few hundred ulp of err_i err_j (pass 4: was 1e-10 / 1e-9)
         if not np.all(dev <= tol):
             i, j = np.unravel_index(int(np.argmax(np.where(np.isnan(dev), np.inf, dev))), dev.shape)
             mech = 'covariance:diagonal-differs-from-reference' if i == j else 'covariance:off-diagonal-differs-from-reference'
@@ -478,10 +478,10 @@ def case_cov(ctx, rng, size, support, relation):
                 if p is None:
                     continue
                 ctx.count('pearson_pairs')
-                ctx.close(R[i, j], p, 'correlation:differs-from-Pearson-on-common-configurations', 'pair %d %d' % (i, j), rtol=0, atol=1e-10,
+                ctx.close(R[i, j], p, 'correlation:differs-from-Pearson-on-common-configurations', 'pair %d %d' % (i, j), rtol=0, atol=1e-12,
                           detail={'n_i': len(L['tables'][i][ci]), 'n_j': len(L['tables'][j][cj])})
                 ctx.close(C[i, j], p * errs[i] * errs[j], 'covariance:differs-from-Pearson-times-errors', 'pair %d %d' % (i, j),
-                          rtol=1e-9, scale=errs[i] * errs[j])
+                          rtol=1e-12, scale=errs[i] * errs[j])
                 if 0.05 < abs(p) < 0.95:
                     ctx.nontrivial.add(digest('pearson', p, errs[i], errs[j]))
         # PSD when every list coincides (and no derived quantity widened a list)
@@ -508,8 +508,8 @@ def case_cov(ctx, rng, size, support, relation):
         sub = np.ix_(idx, idx)
         sc = np.sqrt(np.outer(np.diag(exp)[idx], np.diag(exp)[idx]))
         ctx.count('external_JSJ_judged')
-        ctx.close(C[sub] / sc, exp[sub] / sc, 'covariance:external-inputs-not-J-Sigma-JT', 'cov_only n=%d' % n, rtol=0, atol=1e-10)
-        ctx.close(errs[idx] ** 2, np.diag(exp)[idx], 'covariance:external-error-not-J-Sigma-JT', 'dvalue^2', rtol=1e-10)
+        ctx.close(C[sub] / sc, exp[sub] / sc, 'covariance:external-inputs-not-J-Sigma-JT', 'cov_only n=%d' % n, rtol=0, atol=1e-12)
+        ctx.close(errs[idx] ** 2, np.diag(exp)[idx], 'covariance:external-error-not-J-Sigma-JT', 'dvalue^2', rtol=1e-12)
         ev = np.linalg.eigvalsh((C[sub] + C[sub].T) / 2 / sc)
         ctx.require(ev[0] >= -1e-11 * max(ev[-1], 1e-300), 'covariance:external-not-positive-semi-definite', {'eig': ev})
         off = np.abs((exp[sub] / sc)[~np.eye(len(idx), dtype=bool)])
@@ -597,10 +597,10 @@ def case_scale(ctx, rng, support, relation):
         smoothed = (E, pe.covariance(obs, correlation=True, smooth=E), pe.covariance(obs2, correlation=True, smooth=E))
 
     def judge(c):
-        c.close(R2, R * sg, 'correlation:changes-under-rescaling-of-the-observables', what, rtol=0, atol=1e-10)
+        c.close(R2, R * sg, 'correlation:changes-under-rescaling-of-the-observables', what, rtol=0, atol=1e-12)
         if same_windows:
             c.close(C2 / (np.outer(cs, cs) * np.outer(errs, errs)), C / np.outer(errs, errs), 'covariance:not-homogeneous-of-degree-two-under-rescaling',
-                    what, rtol=0, atol=1e-9)
+                    what, rtol=0, atol=1e-9)   # (the analysed errors of the scaled copy agree to 1e-9 by the test above)
         if smoothed is not None:
             c.close(smoothed[2] * sg, smoothed[1], 'smooth:changes-under-rescaling-of-the-observables', what + ' E=%d' % smoothed[0], rtol=0, atol=1e-8)
     scaling_relations(ctx, judge, obs, what)
@@ -690,7 +690,7 @@ def case_coincidence(ctx, rng, variant, support):
     for (a_, b_), sgn in expect_unit.items():
         ctx.close(R[a_, b_], sgn, 'correlation:affine-images-of-one-observable-not-perfectly-correlated', '%s pair %d %d' % (variant, a_, b_), rtol=0, atol=1e-12)
         ctx.close(C[a_, b_], sgn * errs[a_] * errs[b_], 'covariance:affine-images-of-one-observable-not-err-times-err', '%s pair %d %d' % (variant, a_, b_),
-                  rtol=1e-10, scale=errs[a_] * errs[b_])
+                  rtol=1e-12, scale=errs[a_] * errs[b_])
     if expect_unit:
         # a singular correlation matrix: the Cholesky helper has to refuse it (condition number beyond 0.1 / eps)
         condn = float(np.linalg.cond(R))
@@ -754,7 +754,7 @@ def case_empty_replica(ctx, rng):
     ia, ib = lst.index(a), lst.index(b)
     da, db = table_deltas(ta, e + '|r1'), table_deltas(tb, e + '|r1')
     # (the stored fluctuations of a replica are taken about that replica's own mean)
-    ctx.close(R[ia, ib], rcov.pearson_common(da, db), 'correlation:replica-without-common-configurations-contributes', 'only r1 overlaps', rtol=0, atol=1e-10)
+    ctx.close(R[ia, ib], rcov.pearson_common(da, db), 'correlation:replica-without-common-configurations-contributes', 'only r1 overlaps', rtol=0, atol=1e-12)
     ctx.nontrivial.add(digest('emptyrep', R))
 
 
@@ -857,6 +857,42 @@ def case_chol(ctx, rng):
     off = np.abs(corr[~np.eye(n, dtype=bool)]) if n > 1 else np.array([])
     if np.any((off > 0.05) & (off < 0.95)):
         ctx.nontrivial.add(digest('chol', corr, errs))
+
+
+def case_chol_limit(ctx, rng):
+    """condition numbers just below / above the documented thresholds of the Cholesky helper: refusal beyond 0.1 / eps (4.5e14), warning
+    beyond 1e13; the helper's own measure np.linalg.cond(corr) decides, a factor 2 around each threshold is left unjudged"""
+    import warnings as _w
+    pe = PE
+    n = int(rng.integers(2, 7))
+    target = float(10 ** rng.uniform(12.0, 16.5))
+    corr = spd_with_condition(rng, n, target)
+    errs = 10 ** rng.uniform(-2, 2, size=n)
+    condn = float(np.linalg.cond(corr))
+    limit = 0.1 / np.finfo(float).eps
+    ctx.cell('helper', 'chol_limit', int(np.floor(np.log10(condn))) if np.isfinite(condn) else 'inf')
+    ctx.count('chol_limit_cases')
+    raised, warned = None, False
+    with _w.catch_warnings(record=True) as rec:
+        _w.simplefilter('always')
+        try:
+            pe.obs.invert_corr_cov_cholesky(corr.copy(), np.diag(1 / errs))
+        except ValueError as e:
+            raised = 'ValueError' if 'condition number' in str(e) else 'other:' + str(e)[:40]
+        except np.linalg.LinAlgError:
+            raised = 'LinAlgError'
+    warned = any('ill-conditioned' in str(w_.message) for w_ in rec)
+    if condn > 2 * limit:
+        ctx.require(raised == 'ValueError', 'chol:condition-number-beyond-the-documented-limit-accepted', {'cond': condn, 'raised': raised})
+    elif condn < 0.5 * limit:
+        ctx.require(raised != 'ValueError', 'chol:condition-number-below-the-documented-limit-refused', {'cond': condn, 'raised': raised})
+        if raised is None and condn > 2e13:
+            ctx.require(warned, 'chol:no-warning-for-an-ill-conditioned-matrix', {'cond': condn})
+        if raised is None and condn < 0.5e13:
+            ctx.require(not warned, 'chol:warning-for-a-well-conditioned-matrix', {'cond': condn})
+    else:
+        ctx.count('chol_limit_borderline_not_judged')
+    ctx.nontrivial.add(digest('chollimit', corr))
 
 
 KEY_POOL = ['a', 'b', 'B', 'a1', 'a10', 'a2', 'Z', 'ab', 'c_x', '10', '9', 'z|r1', '']
@@ -1004,7 +1040,9 @@ def case_error_band(ctx, rng):
     if any_digest([arg_x, beta]) != before:
         ctx.count('arguments_modified_by_call:error_band')
     ctx.count('error_band_judged')
-    ctx.close(np.asarray(got, dtype=float), exp, 'error_band:differs-from-sqrt-gT-C-g', 'model %s support %s error size %.1e' % (name, support, esize), rtol=1e-8)
+    band_rtol = float(1e-13 * np.max(quad_scale / exp ** 2))       # condition of sqrt(g^T C g): sum of |terms| over the result (<= 1e-5 by the test above)
+    ctx.count('judged:error_band:condition_decade:%d' % int(np.floor(np.log10(np.max(quad_scale / exp ** 2)))))
+    ctx.close(np.asarray(got, dtype=float), exp, 'error_band:differs-from-sqrt-gT-C-g', 'model %s support %s error size %.1e' % (name, support, esize), rtol=band_rtol)
     # the SAME model function object with other parameter values and other points (nothing of the first call may be remembered)
     if rng.random() < 0.5:
         beta_b = [b + float(rng.uniform(0.2, 0.6)) for b in beta]
@@ -1017,7 +1055,7 @@ def case_error_band(ctx, rng):
         if np.all(np.isfinite(exp_b)) and not np.any(exp_b ** 2 < 1e-8 * qs_b):
             got_b = pe.fits.error_band(xs_b, f_lib, beta_b)
             ctx.count('function_histories_judged')
-            ctx.close(np.asarray(got_b, dtype=float), exp_b, 'error_band:differs-from-sqrt-gT-C-g', 'second call with the same model function object, model %s' % name, rtol=1e-8)
+            ctx.close(np.asarray(got_b, dtype=float), exp_b, 'error_band:differs-from-sqrt-gT-C-g', 'second call with the same model function object, model %s' % name, rtol=float(1e-13 * np.max(qs_b / exp_b ** 2)))
             again = pe.fits.error_band(arg_x, f_lib, beta)
             ctx.require(np.array_equal(np.asarray(again, dtype=float), np.asarray(got, dtype=float)), 'error_band:result-depends-on-call-history', {'model': name})
     # models that are linear in the parameters: the band is homogeneous of degree one in the parameters
@@ -1031,7 +1069,7 @@ def case_error_band(ctx, rng):
             ctx.count('error_band_scaling_judged')
             scaling_relations(ctx, lambda cc: cc.close(np.asarray(got2, dtype=float) / abs(c), np.asarray(got, dtype=float),
                                                         'error_band:not-homogeneous-in-the-parameters-of-a-linear-model',
-                                                        'model %s c=%g error size %.1e' % (name, c, esize), rtol=1e-8),
+                                                        'model %s c=%g error size %.1e' % (name, c, esize), rtol=1e-9),
                               beta, 'error_band model %s c=%g' % (name, c))
         else:
             ctx.count('scale_window_decision_changed')
@@ -1103,6 +1141,7 @@ def plan(tier):
     for variant in ('equal_means', 'zero_means', 'equal_errors', 'perfect_correlation', 'duplicates'):
         for sup in ('one_chain', 'two_ens', 'mixed', 'replicas'):
             p.append(('coinc:%s:%s' % (variant, sup), 7 * m))
+    p.append(('chollimit', 60 * m))
     p.append(('rankdef', 30 * m))
     p.append(('emptyrep', 30 * m))
     p.append(('optvals', 30 * m))
@@ -1123,6 +1162,8 @@ def run_case(ctx, kind, idx, rng):
         case_history(ctx, rng)
     elif k[0] == 'coinc':
         case_coincidence(ctx, rng, k[1], k[2])
+    elif k[0] == 'chollimit':
+        case_chol_limit(ctx, rng)
     elif k[0] == 'rankdef':
         case_rank_deficient(ctx, rng)
     elif k[0] == 'emptyrep':
